@@ -87,7 +87,7 @@ func init() {
 		Runs: map[string]int{"quick": 100000, "thorough": 4000000}, Chunk: 200, RunTimeoutS: 180,
 		Rule: "one case = one corpus font image (sfnt, TTC, WOFF, dfont) served by the simulated disk with a fault plan, then opened (ParseTTC or FontMap.AddFont) and, if it opens, queried exhaustively per face (cmap, advances, extents, outlines/bitmaps/SVG, names, metrics, variations, ppem) and shaped in three directions, all under tick and allocation budgets linear in the image size. Families: (systematic) truncation at every table boundary +-{0,1,2,4}, inside every table header and at every directory record, then every 32-bit directory field and every 16/32-bit field of the first 32 bytes of every table set to 0, 1, max and near-size values and every 16-bit one to its own value +-1, walked by run index (quick: a VERIF_SEED-chosen window of 30000; thorough: the complete list, reported as exhaustive_subspace_cases); (pristine) fault-free, must equal a bytes.Reader load; (random) 1-3 stored-byte faults (truncation, bit flip, 16/32-bit field overwrite with boundary values, zeroed sector, swapped table bodies; 75% aimed at table headers, directory records and boundaries) and 0-2 transient I/O faults (EIO, early EOF, legal short read at the k-th call), 4% of them structure-aware plans that redirect composite-glyph components into reference cycles, 3% dimension-desynchronisation plans (a count that several tables must agree on - axes, glyphs, long metrics, shared tuples, strikes - nudged by +-1, +-2, x2, /2 in one table only), 2% adversarial grafts (a table replaced by a small well-formed table written by the simulator: GSUB expansion chains n^k, self-recursive contextual lookups, cmap format 12 with huge, overlapping or inverted groups); (guided, 1.2% of the seeded runs) a coverage-guided campaign of 150 (thorough: 400) executions on one font: a population of fault lists is evolved by adding, perturbing, neighbouring (a second field of the same structure) and dropping stored-byte faults and I/O faults, a child joining the population when it reaches an instrumented site (yield point, if/else branch, switch/select clause) or an order of magnitude of steps/allocation that no earlier execution of the campaign reached; a violation is reported, minimised and stored as the explicit failing execution. On plain sfnt images without I/O faults every table the loader returns must equal the image bytes at the directory's offset and length (reader fidelity). distinct = distinct hash of the case; non-trivial = a stored-byte fault was applied or an I/O fault actually fired (or pristine equivalence was checked).",
 		Assumptions: []string{
-			"step budget 40M + 4000 ticks/byte for load and for the queries of one face, 2G + 4000 ticks/byte for the shaping calls of one face (the shaper bounds its own work by an operation budget that does not depend on the image, so a flat ceiling is the only sound budget there), allocation budget 256 MiB + 600 B/byte of image; calibrated on the pristine corpus (evidence: other_counters.max.*_permille_of_budget)",
+			"step budget 40M + 4000 ticks/byte for load and for the queries of one face, 2G + 4000 ticks/byte for the shaping calls of one face (the shaper bounds its own work by an operation budget that does not depend on the image, so a flat ceiling is the only sound budget there), allocation budget 256 MiB + 600 B/byte of image (plus a flat 4 GiB once the battery shapes, for the same reason); calibrated on the pristine corpus (evidence: other_counters.max.*_permille_of_budget)",
 			"go/ast text-splice instrumentation preserves semantics (the pristine family compares against an uninstrumented-reader load inside the same build; the baseline suite is not run on the instrumented copy)",
 			"time spent inside the standard library (zlib for WOFF) is only covered by the wall-clock backstop",
 			"panic sites listed in known_findings.json are printed as KNOWN-FINDING, any other site is a violation",
